@@ -154,14 +154,6 @@ func init() {
 		"strings.ToLower": func(e *Exec, a []Value) Value { return asciiMap(e, a[0].(Str), 'A', 'Z', 0x20) },
 		"strings.Clone":                func(e *Exec, a []Value) Value { return a[0] },
 		"internal/stringslite.Clone":   func(e *Exec, a []Value) Value { return a[0] },
-		"(*regexp.Regexp).MatchString": func(e *Exec, a []Value) Value {
-			re := (*a[0].(Ptr).slot).(Native).v.(*regexp.Regexp)
-			s := a[1].(Str)
-			if !s.Concrete() {
-				e.cut("unsupported-symbolic:regexp.MatchString")
-			}
-			return Bool(re.MatchString(s.s))
-		},
 		"unicode/utf8.DecodeRuneInString": func(e *Exec, a []Value) Value {
 			r, w := e.decodeRune(a[0].(Str))
 			return Tuple{r, Const(64, uint64(w))}
